@@ -171,7 +171,7 @@ variable_player:
 
 # ---- TLC configs ----------------------------------------------------------------------------------------------------
 def mc_module(configs):
-    return """----------------------------- MODULE PlayersMC -----------------------------
+    return r"""----------------------------- MODULE PlayersMC -----------------------------
 EXTENDS Players
 MCConfigs == {%s}
 \* schedule shaping for simulation only: most of the time players join right at the start of a first ball
@@ -413,6 +413,35 @@ def handmade():
     return out
 
 
+def validate(wd, traces):
+    """All traces in big batches; if violations are pervasive, small batches until a dozen rejected traces are diagnosed."""
+    agg = tlc.TraceVerdict()
+    n = 0
+
+    def merge(v, b0, k):
+        agg.accepted.update(b0 + i for i in v.accepted)
+        agg.rejected.update({b0 + i: info for i, info in v.rejected.items()})
+        agg.states += v.states
+        agg.transitions += v.transitions
+        agg.wall += v.wall
+        agg.runs += v.runs
+        return n + k
+    n = merge(tlc.validate_traces(wd, 'PlayersTrace', 'Trace.cfg', traces[:24], batch=24), 0, len(traces[:24]))
+    if len(agg.rejected) >= 8:
+        return agg, n
+    try:
+        return agg, merge(tlc.validate_traces(wd, 'PlayersTrace', 'Trace.cfg', traces[24:], batch=150), 24, len(traces[24:]))
+    except tlc.TLCError as ex:
+        if 'too many monitor violations' not in str(ex):
+            raise
+    for b0 in range(24, len(traces), 24):
+        part = traces[b0:b0 + 24]
+        n = merge(tlc.validate_traces(wd, 'PlayersTrace', 'Trace.cfg', part, batch=24), b0, len(part))
+        if len(agg.rejected) >= 12:
+            break
+    return agg, n
+
+
 def run(ctx):
     wd = tlc.prepare(ctx.scratch, 'Players', 'players')
     q = 0 if ctx.quick else 1
@@ -435,19 +464,20 @@ def run(ctx):
         b, _ = tlc.simulate(wd, 'PlayersMC', 'Gen%d.cfg' % gi, num=int((240 if ctx.quick else 3200) * share),
                             depth=64 if ctx.quick else 90, seed=ctx.seed + gi)
         behs += b
-    jobs = [(ctx.scratch, {'bpg': b[0]['cfg']['bpg'], 'maxp': b[0]['cfg']['maxp']}, [s['act'] for s in b], ctx.seed * 1000 + i)
-            for i, b in enumerate(behs)]
+    jobs = []
     for ci, s in handmade():
         jobs.append((ctx.scratch, CONFIGS[ci], s, 7))
         jobs.append((ctx.scratch, CONFIGS[ci], s, 8))
+    jobs += [(ctx.scratch, {'bpg': b[0]['cfg']['bpg'], 'maxp': b[0]['cfg']['maxp']}, [s['act'] for s in b], ctx.seed * 1000 + i)
+             for i, b in enumerate(behs)]
     for c in CONFIGS:
         write_machine(ctx.scratch, c['bpg'], c['maxp'])
     traces = harness.pmap(exec_schedule, jobs, nproc=8, chunk=4, item_timeout=120)
     with open(wd + '/Trace.cfg', 'w') as f:
         f.write(cfg_text('TSpec', 'TConfigs', ALL_ACTS, 1000000, 1000000, 1000000, 1000000,
                          ''.join('INVARIANT %s\n' % x for x in MONITORS) + 'INVARIANT Reporter\n'))
-    v = tlc.validate_traces(wd, 'PlayersTrace', 'Trace.cfg', traces, batch=150)
-    ctx.add_trace_verdict('PlayersTrace', v, len(traces))
+    v, nval = validate(wd, traces)
+    ctx.add_trace_verdict('PlayersTrace', v, nval)
     ops = {}
     for t in traces:
         for e in t['ev']:
